@@ -62,7 +62,7 @@ Section Step.
         as [Hq _|_ B1 _ _ _ _ _ _ _ _ _ _ _ _|_ A1 A2 A3 Apost A4 A5 A6 [K|(Hph & d & _ & _ & U)]].
       + destruct Hq as (Q1 & _ & _ & _ & _ & _ & _ & _ & Q9). rewrite Q1, Q9. exact Hd3.
       + apply rootb_false in Hx0. rewrite Hx0 in B1. rewrite B1 in Hd1. discriminate.
-      + destruct K as (_ & _ & _ & _ & _ & _ & K7 & _ & K9 & _).
+      + destruct K as (_ & _ & _ & _ & _ & _ & K7 & _ & K9 & _ & _).
         destruct Hd3 as [Hd3|Hd3]; [|right; apply K9; exact Hd3].
         destruct (K7 Hd3) as [K|K]; [left; exact K|].
         exfalso. destruct (Apost Hx0) as [(P1 & P2 & _)|(P1 & _)].
@@ -108,7 +108,7 @@ Section Step.
     - destruct Hq as (Q1 & Q2 & _). rewrite Q1 in Hex. rewrite Q2 in Hin. auto.
     - exfalso. destruct B3 as [B3|B3]; rewrite B3 in Hex;
         destruct Hex as [[w Hw]|[[w Hw]|Hw]]; discriminate.
-    - destruct K as (_ & _ & (f & K3) & K4 & K5 & K6 & K7 & K8 & K9 & K10).
+    - destruct K as (_ & _ & (f & K3) & K4 & K5 & K6 & K7 & K8 & K9 & K10 & K11).
       assert (Hin0 : In x (pend (Rn s p))).
       { rewrite K3 in Hin. apply filter_In in Hin. tauto. }
       destruct (ph (Rn s p)) as [| |w|w| |] eqn:Eph; try contradiction.
